@@ -258,11 +258,11 @@ def run_fastpath(case, ctx: Ctx):
                       scale=max(1.0, float(want_raw_diag.abs().max())))
         ctx.label(f"kfast:diag_path={'fast' if fast_g else 'generic'}")
     ctx.set_nontrivial(ncoin > 0 or bool(kb) or bool(case["x1b"]) or bool(case["x2b"]))
-    ctx.label(f"kfast:kernel={name}", f"kfast:default_path={tag_d}", f"kfast:trace_path={'fast' if fast_t else 'generic'}",
-              f"kfast:xgrad_path={'fast' if fast_x else 'generic'}", f"kfast:coincident_pairs={min(ncoin, 3)}",
-              f"kfast:near_coincident={near}", f"kfast:kb={kb}", f"kfast:same_tensor={same}", f"kfast:ard={ard},d={d}",
-              f"kfast:active_dims={r['ad'] is not None}", f"kfast:xgrad_wrt={which}", f"kfast:diag_checked={did_diag}",
-              f"kfast:{name}:default_path={tag_d}:coincident={ncoin > 0}")
+    # (the evidence keeps the 120 most frequent labels: keep the alphabet small)
+    ctx.label(f"kfast:{name}:default_path={tag_d}:coincident={ncoin > 0}", f"kfast:trace_path={'fast' if fast_t else 'generic'}",
+              f"kfast:xgrad_path={'fast' if fast_x else 'generic'}", f"kfast:near_coincident={near}", f"kfast:kb={kb}",
+              f"kfast:same_tensor={same}", f"kfast:active_dims={r['ad'] is not None}", f"kfast:xgrad_wrt={which}",
+              f"kfast:ard_num_dims={'none' if not ard else ('1' if d == 1 else '>1')}")
 
 
 # ===================================================================================================
@@ -281,7 +281,7 @@ LN_SHAPES = [[], [1], [3], [5], [8], [2, 3], [3, 2], [2, 2, 2], [1, 4]]
 def _z_elem():
     f = lambda lo, hi: st.floats(lo, hi, allow_nan=False, allow_subnormal=False, exclude_min=True, exclude_max=True)  # noqa: E731
     deltas = [0.0, 2.220446049250313e-16, 1e-12, 1e-9, 1e-6, 1e-3]
-    near = st.tuples(st.sampled_from(LN_BP), st.sampled_from(deltas), st.sampled_from([-1.0, 1.0])).map(lambda t: t[0] + t[1] * t[2] * max(1.0, 1.0))
+    near = st.tuples(st.sampled_from(LN_BP), st.sampled_from(deltas), st.sampled_from([-1.0, 1.0])).map(lambda t: t[0] + t[1] * t[2])
     return st.one_of(
         f(-1e6, -12.0), f(-12.0, -1.3), f(-12.0, -1.3), f(-1.3, -1.0), f(-1.3, -1.0), near, near,
         f(-1.0, -0.2), f(-0.2, 0.2), f(-0.2, 0.2), st.just(0.0), f(0.2, 8.0), f(0.2, 8.0), f(8.0, 40.0), LATTICE,
@@ -408,9 +408,8 @@ def run_lncdf(case, ctx: Ctx):
     nd = float(dist.min()) if dist.numel() else 1.0
     ctx.set_nontrivial(bool(tail.any()) or len(present) >= 2)
     ctx.label(*[f"lncdf:branch={p}" for p in present], f"lncdf:branches_in_tensor={len(present)}", f"lncdf:layout={layout}",
-              f"lncdf:rank={len(shape)}", f"lncdf:nearest_branch_point={'<=1e-9' if nd <= 1e-9 else '<=1e-3' if nd <= 1e-3 else 'far'}",
-              f"lncdf:tail_zone_(-1.3,-1)={bool(zone_a.any())}", f"lncdf:far_tail_z<-12={bool((zd < -12).any())}",
-              f"lncdf:fd_skipped_elements={int((~fd_ok).sum()) > 0}")
+              f"lncdf:nearest_branch_point={'<=1e-9' if nd <= 1e-9 else '<=1e-3' if nd <= 1e-3 else 'far'}",
+              f"lncdf:tail_zone_(-1.3,-1)={bool(zone_a.any())}", f"lncdf:far_tail_z<-12={bool((zd < -12).any())}")
 
 
 # ===================================================================================================
@@ -483,7 +482,7 @@ def _nat_common(case, ctx, kind):
     ctx.cls = f"{kind}|M{M}|b{b}|{case['via']}"
     isI = bool((Sg - torch.eye(M)).abs().max() == 0)
     ctx.set_nontrivial(not isI or bool(b))
-    ctx.label(f"{kind}:M={M}", f"{kind}:batch={b}", f"{kind}:via={case['via']}", f"{kind}:S_is_identity={isI}")
+    ctx.label(f"{kind}:batch={b}", f"{kind}:via={case['via']}", f"{kind}:S_is_identity={isI}")
     kappa = float(torch.linalg.cond(Sg).max())
     # one dense factorisation + triangular inverses of S, kappa <= ~300 here: rtol 1e-9 -> 1e-8, atol 1e-9*scale
     return m, Sg, kappa
@@ -601,7 +600,7 @@ def run_ciq_terms(case, ctx: Ctx):
     ctx.close("grad.interp_term", dk, torch.zeros_like(kref) if gk is None else gk, **tol)
     isI = bool((Sg - torch.eye(M)).abs().max() == 0)
     ctx.set_nontrivial(not isI or bool(bk) or bool(bv))
-    ctx.label(f"ciq_terms:bk={bk},bv={bv}", f"ciq_terms:M={M}", f"ciq_terms:N={N}", f"ciq_terms:S_is_identity={isI}")
+    ctx.label(f"ciq_terms:bk={bk},bv={bv}", f"ciq_terms:S_is_identity={isI}")
 
 
 class CiqGP(gpytorch.models.ApproximateGP):
@@ -699,7 +698,7 @@ def run_ciq_model(case, ctx: Ctx):
         ctx.close("grad.inducing_points", torch.zeros_like(Z) if dZ is None else dZ, gZ, rtol=1e-4, atol=t / min(1.0, gap * 1e2))
     isI = bool((Sg - torch.eye(M)).abs().max() == 0)
     ctx.set_nontrivial(not isI or bool(bv))
-    ctx.label(f"ciq_model:kernel={kern.describe(kr)}", f"ciq_model:bv={bv}", f"ciq_model:M={M}", f"ciq_model:jitter={jit:g}",
+    ctx.label(f"ciq_model:leaf={kern.leaves(kr)[0]['k']}", f"ciq_model:scale_kernel={kr['k'] == 'Scale'}", f"ciq_model:bv={bv}", f"ciq_model:jitter={jit:g}",
               f"ciq_model:Zgrad_checked={gap >= 1e-4}")
 
 
@@ -818,15 +817,15 @@ RULE = ("kernel.fastpath: kernel in {RBF, Matern nu=.5/1.5/2.5} x (ARD | ard_num
         "non-trivial iff a batch shape or a test row equal to a train row.  distinct = distinct canonical case.")
 
 SUBCHECKS = [
-    Subcheck("kernel.fastpath", run_fastpath, strategy=fastpath_case, quick=2400, thorough=60000, min_shard=60, max_shards=8),
-    Subcheck("lncdf.generated", run_lncdf, strategy=lncdf_case, quick=3000, thorough=80000, min_shard=100, max_shards=4),
+    Subcheck("kernel.fastpath", run_fastpath, strategy=fastpath_case, quick=4000, thorough=60000, min_shard=60, max_shards=8),
+    Subcheck("lncdf.generated", run_lncdf, strategy=lncdf_case, quick=4000, thorough=80000, min_shard=100, max_shards=4),
     Subcheck("lncdf.grid", run_lncdf, enumerate=lncdf_grid,
              exhaustive_note="log_normal_cdf gradient on the grid [-12, 9] step 0.01 plus 10 far points (a sweep, not a finite space)", max_shards=1),
-    Subcheck("natural.grad", run_natural, strategy=natural_case, quick=1500, thorough=30000, min_shard=60, max_shards=3),
-    Subcheck("trilnatural.grad", run_trilnatural, strategy=natural_case, quick=1500, thorough=30000, min_shard=60, max_shards=3),
-    Subcheck("ciq.ngd_terms", run_ciq_terms, strategy=ciq_terms_case, quick=1200, thorough=30000, min_shard=60, max_shards=3),
-    Subcheck("ciq.model", run_ciq_model, strategy=ciq_model_case, quick=800, thorough=15000, min_shard=40, max_shards=4),
-    Subcheck("pred.xgrad", run_pred, strategy=pred_case, quick=800, thorough=15000, min_shard=40, max_shards=4),
+    Subcheck("natural.grad", run_natural, strategy=natural_case, quick=2000, thorough=30000, min_shard=60, max_shards=3),
+    Subcheck("trilnatural.grad", run_trilnatural, strategy=natural_case, quick=2000, thorough=30000, min_shard=60, max_shards=3),
+    Subcheck("ciq.ngd_terms", run_ciq_terms, strategy=ciq_terms_case, quick=1500, thorough=30000, min_shard=60, max_shards=3),
+    Subcheck("ciq.model", run_ciq_model, strategy=ciq_model_case, quick=1000, thorough=15000, min_shard=40, max_shards=4),
+    Subcheck("pred.xgrad", run_pred, strategy=pred_case, quick=1200, thorough=15000, min_shard=40, max_shards=4),
 ]
 
 SPEC = PropertySpec(
